@@ -9,6 +9,7 @@ import WpModel.Lemmas.Grid
 import WpModel.Lemmas.Whitespace
 import WpModel.Lemmas.Boxes
 import WpModel.Lemmas.Tables
+import WpModel.Lemmas.TableKinds
 import WpModel.Lemmas.Threading
 
 namespace Wp.C08
@@ -720,6 +721,53 @@ theorem table_fixup_other (b b' : KBox) (hrun : b.st.run = false) (hp : b.isA .P
   rcases hks o ho with ⟨_, h1⟩ | ⟨_, h1⟩
   · exact h1
   · rcases h1 with h1 | h1 <;> rw [h1] <;> rfl
+
+/-- Rule 3.2 — *which* anonymous table: under a parent that is no table part, every child after the
+fix-up is a (fixed-up) child of the box that is no internal table box, or an anonymous table wrapper
+generated by the rule, and that wrapper is an inline-block around an inline-table exactly when the parent
+is an inline box; under a block, inline-block, inline-flex / inline-grid, cell, caption … it is a block
+around a block-level table (`Rule32Wrapper`). -/
+theorem table_fixup_anonymous_table_kind (b b' : KBox) (hrun : b.st.run = false) (hp : b.isA .ParentBox = true)
+    (hk : b.kind ∉ [BoxKind.TableBox, .InlineTableBox, .TableRowGroupBox, .TableRowBox,
+      .TableColumnGroupBox, .TableColumnBox]) (h : atb b = .ok b') :
+    ∃ children, atbKids b.kids = .ok children ∧
+      ∀ o ∈ b'.kids, (o ∈ children ∧ Gen.internalTableOrCaption o.kind = false) ∨ Rule32Wrapper b o := by
+  have hpp : ∀ j, (Gen.properParents j).contains b.kind = false := by
+    intro j
+    revert hk
+    cases b.kind <;> cases j <;> decide
+  have e : ∀ cls ∈ [BoxClass.TableColumnBox, .TableColumnGroupBox, .TableBox, .TableRowGroupBox, .TableRowBox],
+      Gen.isSub b.kind cls = false := by
+    revert hk
+    cases b.kind <;> decide
+  obtain ⟨k, st, el, inst, text, kids, cols⟩ := b
+  unfold atb at h
+  simp only [KBox.st] at hrun
+  simp only [KBox.isA, KBox.kind] at hp
+  simp only [hrun, hp, Bool.not_true, Bool.or_false, Bool.false_eq_true, if_false] at h
+  split at h
+  · cases h
+  · rename_i children hkids
+    refine ⟨children, hkids, ?_⟩
+    have hf : ∀ m, tableFuel m = (8 * m + 63) + 1 := by intro m; unfold tableFuel; omega
+    rw [hf] at h
+    obtain ⟨ks, rfl, hks⟩ := tbc_other_kinds _ _ children b'
+      (e _ (by simp)) (e _ (by simp)) (e _ (by simp)) (e _ (by simp)) (e _ (by simp)) hpp h
+    intro o ho
+    rw [(withKids_proj _ ks).2.2.2] at ho
+    exact hks o ho
+
+/-! Non-vacuity: a stray cell in a `span` gets an inline-table in an inline-block; the same cell in an
+inline-block (or an inline-flex container) gets a block-level table in a block. -/
+example :
+    let cell : KBox := .mk .TableCellBox {} {} {} [] [] []
+    let shape (r : Except BErr KBox) := match r with
+      | .ok b => b.kids.map (fun (w : KBox) => (w.kind, w.inst.wrapper, w.kids.map (fun (t : KBox) => t.kind)))
+      | .error _ => []
+    shape (atb (.mk .InlineBox {} {} {} [] [cell] [])) = [(.InlineBlockBox, true, [.InlineTableBox])] ∧
+    shape (atb (.mk .InlineBlockBox {} {} {} [] [cell] [])) = [(.BlockBox, true, [.TableBox])] ∧
+    shape (atb (.mk .InlineFlexBox {} {} {} [] [cell] [])) = [(.BlockBox, true, [.TableBox])] := by
+  refine ⟨by rfl, by rfl, by rfl⟩
 
 /-! Non-vacuity: `div[ td"a", " ", tr[ "b" ], caption ]` becomes
 `div[ wrapper[ caption, table[ rowgroup[ row[cell a], row[cell[b]] ] ] ] ]`. -/
